@@ -1,5 +1,234 @@
-import StraxModel.Model.Basic
+import StraxModel.Lemmas.Peaks
+/-
+  C19 — peak clustering, summing, merging and splitting conserve hits, area and time.
+  Property theorems over the model `Strax.Peaks` (Model/Peaks.lean); helper lemmas in Lemmas/Peaks.lean.
+  Every theorem quantifies over ALL inputs of the modelled function (no size bound); hypotheses are
+  decidable predicates and come with an `example` that a concrete non-trivial instance satisfies them.
+-/
 namespace Strax.C19
-open Strax
+open Strax Strax.Peaks
+
+/-! ## find_peaks: peaks are the gap-threshold clusters of the hits -/
+
+/-- **peaks_are_clusters.** Whenever `find_peaks` returns, there is a list of clusters (the closed
+candidates of the hit loop, `members` = their hits) such that
+* the clusters partition the hits, in order (no hit lost, none used twice);
+* every cluster is a non-empty chain: each further hit starts less than `gap_threshold` after the running
+  end of the cluster so far and does not make it exceed `max_duration` (`IsChain`), and the candidate's
+  fields are the fold of its members (`buildCand`, closed forms in `cluster_fields`);
+* consecutive clusters are separated: the first hit of the next one is `>= gap_threshold` behind the running
+  end of the previous one, or would have made it too long (`Separated`);
+* the peaks are exactly the clusters that pass the area and channel cuts, in order (`Cand.toPeak`,
+  characterised in `cuts_spec`), and no cluster hit the "nonpositive length" error. -/
+theorem peaks_are_clusters (P : FPParams) (toPe : List Rat) (nCh nS : Nat) (hits : List Hit) (peaks : List Peak)
+    (h : findPeaks P toPe nCh nS hits = .ok peaks) :
+    ∃ cs : List Cand,
+      (cs.map (·.members)).flatten = hits ∧
+      (∀ c ∈ cs, IsChain P toPe nCh c.members ∧ buildCand P toPe nCh c.members = some c) ∧
+      Separated P cs ∧
+      peaks = cs.filterMap (Cand.toPeak P nS) ∧
+      (∀ c ∈ cs, ∃ r, c.finish P nS = .ok r) := by
+  unfold findPeaks at h
+  by_cases he : hits.isEmpty
+  · simp only [he, if_true, Except.ok.injEq] at h
+    subst h
+    have : hits = [] := by simpa using he
+    subst this
+    exact ⟨[], by simp, by simp, by simp [Separated, sepBy], by simp, by simp⟩
+  · simp only [he, if_false, Bool.false_eq_true] at h
+    split at h
+    · simp at h
+    · have hne : hits ≠ [] := by simpa using he
+      refine ⟨scanHits P toPe nCh none hits, ?_, ?_, scanHits_separated P toPe nCh hits none, ?_, ?_⟩
+      · simpa [membersOf] using scanHits_flatten P toPe nCh hits none hne
+      · intro c hc
+        exact ⟨scanHits_chain P toPe nCh hits none trivial trivial (by intro c0 _ _ e; cases e) c hc,
+               scanHits_inv P toPe nCh hits none trivial c hc⟩
+      · exact (finishAll_ok P nS _ peaks h).1
+      · exact (finishAll_ok P nS _ peaks h).2
+
+/-- closed forms of a cluster's fields: start = first hit − left extension, running end = latest hit end,
+`n_hits`, area and area per channel are the sums over its hits -/
+theorem cluster_fields (P : FPParams) (toPe : List Rat) (nCh : Nat) (f : Hit) (t : List Hit) (c : Cand)
+    (hb : buildCand P toPe nCh (f :: t) = some c) :
+    c.time = f.time - P.left ∧ c.dt = f.dt ∧ c.endt = maxEndt (f :: t) ∧ c.nHits = ((f :: t).length : Int) ∧
+    c.area = ((f :: t).map (hitPE toPe)).sum ∧ c.apc.length = nCh ∧
+    ((∀ x ∈ f :: t, x.channel < nCh) →
+      ∀ k, c.apc.getD k 0 = (((f :: t).filter (fun x => x.channel = k)).map (hitPE toPe)).sum) :=
+  buildCand_spec P toPe nCh f t c hb
+
+/-- the cuts: a cluster becomes a peak iff its area is at least `min_area` and at least `min_channels`
+channels contribute; the peak then carries the cluster's start, dt, area, per-channel areas and hit count -/
+theorem cuts_spec (P : FPParams) (nS : Nat) (c : Cand) :
+    (∀ p, c.toPeak P nS = some p →
+      ¬ c.area < P.minArea ∧ ¬ nonzeroCount c.apc < P.minChannels ∧ p.time = c.time ∧ p.dt = c.dt ∧
+      0 < p.length ∧ p.area = c.area ∧ p.apc = c.apc ∧ p.nHits = c.nHits) ∧
+    ((c.area < P.minArea ∨ nonzeroCount c.apc < P.minChannels) → c.toPeak P nS = none) := by
+  refine ⟨?_, toPeak_none_of_cut P nS c⟩
+  intro p hp
+  obtain ⟨h1, h2, h3, h4, _, h6, h7, h8, h9, _⟩ := toPeak_some P nS c p hp
+  exact ⟨h1, h2, h3, h4, h6, h7, h8, h9⟩
+
+/-- a peak spans its hits ± the extensions (hits of one sampling width on the sample grid): it starts
+`left_extension` before its first hit, ends `right_extension` after its latest hit end, so every hit of a
+time-sorted cluster lies inside `[time + left, endtime − right]` -/
+theorem peak_spans_hits (P : FPParams) (toPe : List Rat) (nCh nS : Nat) (c : Cand) (p : Peak) (d : Int)
+    (hb : buildCand P toPe nCh c.members = some c) (hd : 0 < d) (hg : OnGrid d c.members)
+    (hl : d ∣ P.left) (hr : d ∣ P.right) (hsorted : c.members.Pairwise (fun a b => a.time ≤ b.time))
+    (hp : c.toPeak P nS = some p) :
+    ∀ x ∈ c.members, p.time + P.left ≤ x.time ∧ x.endt + P.right ≤ p.endt := by
+  obtain ⟨f, t, hm, h1, h2, _⟩ := peak_span P toPe nCh nS c p d hb hd hg hl hr hp
+  intro x hx
+  refine ⟨?_, by have := le_maxEndt c.members x hx; omega⟩
+  rw [hm] at hx hsorted
+  rcases List.mem_cons.mp hx with rfl | hx
+  · omega
+  · have := (List.pairwise_cons.mp hsorted).1 x hx; omega
+
+/-- time order and disjointness of ALL closed clusters for time-sorted hits: starts are ordered; and if no
+`max_duration` cut happened (`SeparatedFar`), any later cluster starts at least `gap − left − right`
+(> 0 by the assertion of `find_peaks`) after the extended end of any earlier one -/
+theorem clusters_ordered_disjoint (P : FPParams) (toPe : List Rat) (nCh : Nat) (hits : List Hit)
+    (hsorted : hits.Pairwise (fun a b => a.time ≤ b.time)) (hne : hits ≠ []) :
+    (scanHits P toPe nCh none hits).Pairwise (fun c c' => c.time ≤ c'.time) ∧
+    (SeparatedFar P (scanHits P toPe nCh none hits) →
+      (scanHits P toPe nCh none hits).Pairwise
+        (fun c c' => (c.endt + P.right) + (P.gap - P.left - P.right) ≤ c'.time)) := by
+  have hfl := scanHits_flatten P toPe nCh hits none hne
+  simp only [membersOf, List.nil_append] at hfl
+  have hinv := scanHits_inv P toPe nCh hits none trivial
+  refine ⟨pairwise_time P toPe nCh _ hinv (by rw [hfl]; exact hsorted), ?_⟩
+  intro hfar
+  have := pairwise_far P toPe nCh _ hinv (by rw [hfl]; exact hsorted) hfar
+  exact this.imp (by intro a b hab; omega)
+
+/-- … and therefore of the returned peaks (a sub-list of the clusters): time-ordered, and without a
+`max_duration` cut pairwise disjoint with at least `gap − left − right` between them.
+FULL statement wanted by the property ("disjoint" unconditionally) is FALSE for the code as it is:
+see `duration_cut_overlap_counterexample`. -/
+theorem peaks_ordered_disjoint_partial (P : FPParams) (toPe : List Rat) (nCh nS : Nat) (hits : List Hit) (peaks : List Peak)
+    (d : Int) (hd : 0 < d) (hg : OnGrid d hits) (hl : d ∣ P.left) (hr : d ∣ P.right)
+    (hsorted : hits.Pairwise (fun a b => a.time ≤ b.time))
+    (h : findPeaks P toPe nCh nS hits = .ok peaks) :
+    peaks.Pairwise (fun p p' => p.time ≤ p'.time) ∧
+    (SeparatedFar P (scanHits P toPe nCh none hits) →
+      peaks.Pairwise (fun p p' => p.endt + (P.gap - P.left - P.right) ≤ p'.time)) := by
+  unfold findPeaks at h
+  by_cases he : hits.isEmpty
+  · simp only [he, if_true, Except.ok.injEq] at h
+    subst h; exact ⟨List.Pairwise.nil, fun _ => List.Pairwise.nil⟩
+  · simp only [he, if_false, Bool.false_eq_true] at h
+    split at h
+    · simp at h
+    · have hne : hits ≠ [] := by simpa using he
+      obtain ⟨hp, _⟩ := finishAll_ok P nS _ peaks h
+      obtain ⟨ho, hdj⟩ := clusters_ordered_disjoint P toPe nCh hits hsorted hne
+      have hfl := scanHits_flatten P toPe nCh hits none hne
+      simp only [membersOf, List.nil_append] at hfl
+      have hinv := scanHits_inv P toPe nCh hits none trivial
+      have hmem : ∀ c ∈ scanHits P toPe nCh none hits, OnGrid d c.members := by
+        intro c hc x hx
+        apply hg
+        rw [← hfl]
+        exact List.mem_flatten.mpr ⟨c.members, List.mem_map.mpr ⟨c, hc, rfl⟩, hx⟩
+      subst hp
+      constructor
+      · rw [List.pairwise_filterMap]
+        refine ho.imp_of_mem ?_
+        intro a b ha hb hab p hpa p' hpb
+        have := (toPeak_some P nS a p hpa).2.2.1
+        have := (toPeak_some P nS b p' hpb).2.2.1
+        omega
+      · intro hfar
+        rw [List.pairwise_filterMap]
+        refine (hdj hfar).imp_of_mem ?_
+        intro a b ha hb hab p hpa p' hpb
+        obtain ⟨f, t, hm, h1, h2, _⟩ := peak_span P toPe nCh nS a p d (hinv a ha) hd (hmem a ha) hl hr hpa
+        have h3 := (toPeak_some P nS b p' hpb).2.2.1
+        have h4 : a.endt = maxEndt a.members := by
+          have := hinv a ha; unfold Peaks.Inv at this; rw [hm] at this ⊢
+          exact (buildCand_spec P toPe nCh f t a this).2.2.1
+        omega
+
+/-- The code as it is does NOT make peaks disjoint when a peak is closed by the `max_duration` limit:
+hits `[0,1)` and `[5,6)`, `gap_threshold` 10, extensions 2 / 3, `max_duration` 6 give the overlapping peaks
+`[-2,4)` and `[3,9)` (reproduced on the real code; recorded as an open finding). -/
+theorem duration_cut_overlap_counterexample :
+    ∃ (P : FPParams) (hits : List Hit) (p q : Peak),
+      (findPeaks P [1, 1] 2 4 hits).toOption = some [p, q] ∧ q.time < p.endt :=
+  ⟨⟨10, 2, 3, 0, 1, 6⟩, [⟨0, 1, 1, 0, 1, []⟩, ⟨5, 1, 1, 1, 1, []⟩],
+   ⟨-2, 6, 1, 1, [1, 0], 1, 0, [0, 0, 0, 0]⟩, ⟨3, 6, 1, 1, [0, 1], 1, 0, [0, 0, 0, 0]⟩, by decide +kernel, by decide +kernel⟩
+
+/-! non-vacuity: a concrete three-hit input that satisfies all hypotheses above and gives two peaks -/
+example : (findPeaks ⟨5, 1, 2, 0, 1, 100⟩ [1, 2] 2 4 [⟨0, 2, 1, 0, 3, []⟩, ⟨3, 1, 1, 1, 1, []⟩, ⟨20, 1, 1, 0, 2, []⟩]).toOption
+    = some [⟨-1, 7, 1, 5, [3, 2], 2, 1, [0, 0, 0, 0]⟩, ⟨19, 4, 1, 2, [2, 0], 1, 0, [0, 0, 0, 0]⟩] := by decide +kernel
+example : SeparatedFar ⟨5, 1, 2, 0, 1, 100⟩
+    (scanHits ⟨5, 1, 2, 0, 1, 100⟩ [1, 2] 2 none [⟨0, 2, 1, 0, 3, []⟩, ⟨3, 1, 1, 1, 1, []⟩, ⟨20, 1, 1, 0, 2, []⟩]) := by
+  decide +kernel
+example : OnGrid 1 [⟨0, 2, 1, 0, 3, []⟩, ⟨3, 1, 1, 1, 1, []⟩, ⟨20, 1, 1, 0, 2, []⟩] := by
+  intro x hx; simp at hx; rcases hx with rfl | rfl | rfl <;> exact ⟨rfl, Int.one_dvd _⟩
+
+/-! ## _split_peaks: the fragments tile the parent -/
+
+/-- **split_tiles_parent.** For every list of yielded split indices: if `_split_peaks` accepts it (no
+"invalid peak" error) and the parent's `dt` is a multiple of the original `dt`, the fragments start at the
+parent's start, follow each other without gap or overlap, are non-empty, and end at the last split index;
+when the splitter closes with `len(w)` (as both strax splitters do now) they end at the parent's end. -/
+theorem split_tiles_parent (p : Peak) (origDt : Int) (splits : List Int) (frags : List Frag)
+    (hdiv : origDt ∣ p.dt) (h : splitOne p.time p.dt origDt 0 splits = .ok frags) :
+    Tiles frags p.time (p.time + lastSplit 0 splits * p.dt) ∧
+    (lastSplit 0 splits = p.length → Tiles frags p.time p.endt) := by
+  have := splitOne_tiles p.time p.dt origDt hdiv splits 0 frags h
+  simp only [Int.zero_mul, Int.add_zero] at this
+  refine ⟨this, ?_⟩
+  intro hl
+  rw [hl] at this
+  simpa [Peak.endt, Int.mul_comm] using this
+
+/-- without the divisibility assumption the fragments may leave gaps (the length is truncated) but they
+never overlap and never start before the parent -/
+theorem split_never_overlaps (p : Peak) (origDt : Int) (splits : List Int) (frags : List Frag)
+    (hd : 0 < origDt) (h : splitOne p.time p.dt origDt 0 splits = .ok frags) : NoOverlap frags p.time := by
+  simpa using splitOne_noOverlap p.time p.dt origDt hd splits 0 frags h
+
+/-- the natural-breaks splitter as it is now (closing index `len(w)`) tiles the parent -/
+theorem natural_breaks_tiles (p : Peak) (origDt maxI : Int) (frags : List Frag) (hdiv : origDt ∣ p.dt)
+    (hm : 0 ≤ maxI) (hl : 0 ≤ p.length)
+    (h : splitOne p.time p.dt origDt 0 (naturalBreaksYields true p.length maxI true) = .ok frags) :
+    Tiles frags p.time p.endt := by
+  refine (split_tiles_parent p origDt _ frags hdiv h).2 ?_
+  have h1 : maxI ≠ NO_MORE_SPLITS := by unfold NO_MORE_SPLITS; omega
+  have h2 : p.length ≠ NO_MORE_SPLITS := by unfold NO_MORE_SPLITS; omega
+  simp [naturalBreaksYields, lastSplit, h1, h2]
+
+/-- the closing index before the fix of D15 (`len(w) - 1`) left the last sample of the parent uncovered:
+parent `[0,16)`, best split at 3 → fragments `[0,3)`, `[3,15)` -/
+theorem natural_breaks_old_counterexample :
+    (splitOne 0 1 1 0 (naturalBreaksYields false 16 3 true)).toOption = some [⟨0, 3, 1⟩, ⟨3, 12, 1⟩] ∧
+    ¬ Tiles [⟨0, 3, 1⟩, ⟨3, 12, 1⟩] 0 16 := by
+  refine ⟨by decide +kernel, ?_⟩
+  simp [Tiles, Frag.endt]
+
+example : (splitOne 8 2 1 0 [2, 5, NO_MORE_SPLITS]).toOption = some [⟨8, 4, 1⟩, ⟨12, 6, 1⟩] := by decide +kernel
+
+/-! ## symmetric_moving_average -/
+
+/-- **moving_average_spec** (full strength, all waveforms, all wing widths): every output sample is the mean
+of the input samples with index in `[i − w, i + w] ∩ [0, n)`. -/
+theorem moving_average_spec (a : List Rat) (w : Nat) :
+    symmetricMovingAverage a w = (List.range a.length).map (windowMean a w) :=
+  symmetricMovingAverage_eq a w
+
+/-- before the fix of D5 (`just_out > 0`) sample 0 never left the window: `[1,2,6]`, wing 1 gave `3` instead of
+`4` for the last sample -/
+theorem moving_average_old_counterexample :
+    smaGen false true [1, 2, 6] 1 ≠ (List.range 3).map (windowMean [1, 2, 6] 1) := by decide +kernel
+
+/-- before the fix of D14 (`count = wing_width`) a wing wider than the waveform gave a wrong divisor:
+`[1,2]`, wing 3 gave `[1,1]` instead of `[3/2,3/2]` -/
+theorem moving_average_wide_old_counterexample :
+    smaGen true false [1, 2] 3 ≠ (List.range 2).map (windowMean [1, 2] 3) := by decide +kernel
+
+example : symmetricMovingAverage [1, 2, 6] 1 = [3/2, 3, 4] := by decide +kernel
 
 end Strax.C19
